@@ -164,7 +164,7 @@ func checkC09(r *mc.Report, thorough bool) {
 		depth = 6
 	}
 	r.Explore(mc.Config{Name: fmt.Sprintf("login-placements-d%d", depth), Prune: true, SplitDepth: 2,
-		Rule: fmt.Sprintf("explicit-state search over user placements: histories of %d writes over {root>G1, root>G2, G1>G2, root>U, G1>U, G2>U} x {live, deleted} (move, mirror, delete, re-add, delete/undelete containing groups); in every state: login (auth.user request and POST /v1/auth) with the right credentials, a wrong password, 15 near misses (case, blanks, prefix, longer, empty, another user's e-mail or password, SQL wildcards) for a second user with the same e-mail and another password, and for the default admin, compared with reachability of the root through non-deleted edges; issued token validates; node listing within the subtrees of the user's live placements", depth)},
+		Rule: fmt.Sprintf("explicit-state search over user placements: histories of %d writes over {root>G1, root>G2, G1>G2, root>U, G1>U, G2>U} x {live, deleted} (move, mirror, delete, re-add, delete/undelete containing groups); in every state: login (auth.user request and POST /v1/auth) with the right credentials, a wrong password, 18 near misses (case, blanks, prefix, longer, empty, another user's e-mail or password, SQL wildcards, the user's own e-mail / pass points stored under key \"1\") for a second user with the same e-mail and another password, and for the default admin, compared with reachability of the root through non-deleted edges; issued token validates; node listing within the subtrees of the user's live placements", depth)},
 		c09LoginBody(depth))
 	sh.CleanupTemplate()
 	r.Assume("HTTP handler driven through ServeHTTP (api.NewV1Handler with the store's authorizer and an auth token); header values are passed verbatim")
@@ -371,6 +371,11 @@ func c09LoginBody(depth int) mc.Body {
 		if err := client.SendNodePoints(inst.Nc, "U", u.ToPoints(), true); err != nil {
 			return mc.Outcome{Violation: "HARNESS: " + err.Error(), Key: "harness"}
 		}
+		// U also has a second address and an application secret under key "1", written after the main ones: they are
+		// not the user's login credentials
+		if err := client.SendNodePoints(inst.Nc, "U", data.Points{{Type: data.PointTypeEmail, Key: "1", Text: "alt@x.com", Time: tick()}, {Type: data.PointTypePass, Key: "1", Text: "altpw", Time: tick()}}, true); err != nil {
+			return mc.Outcome{Violation: "HARNESS: " + err.Error(), Key: "harness"}
+		}
 		// a second user with the SAME e-mail and another password, always attached below the root: each pair of
 		// credentials must log in its own user
 		u2 := data.User{ID: "U2", FirstName: "g", LastName: "m", Email: u.Email, Pass: "pw2"}
@@ -475,7 +480,7 @@ func c09LoginBody(depth int) mc.Body {
 			}
 			// near misses: the e-mail and the password must match exactly
 			for _, cr := range map[bool][][2]string{false: nil, true: {{u.Email, ""}, {u.Email, "PW"}, {u.Email, "pw "}, {u.Email, " pw"}, {u.Email, "p"}, {u.Email, "pww"},
-				{"U@X.COM", u.Pass}, {"u@x.com ", u.Pass}, {" u@x.com", u.Pass}, {"u@x.co", u.Pass}, {"", u.Pass}, {"admin@admin.com", u.Pass}, {u.Email, "admin"}, {"%", "%"}, {"u@x.com' OR '1'='1", u.Pass}}}[want && !httpDone] { // (only where the right credentials succeed; once per state)
+				{"U@X.COM", u.Pass}, {"u@x.com ", u.Pass}, {" u@x.com", u.Pass}, {"u@x.co", u.Pass}, {"", u.Pass}, {"admin@admin.com", u.Pass}, {u.Email, "admin"}, {"%", "%"}, {"u@x.com' OR '1'='1", u.Pass}, {"alt@x.com", "altpw"}, {u.Email, "altpw"}, {"alt@x.com", u.Pass}}}[want && !httpDone] { // (only where the right credentials succeed; once per state)
 				if nodes, _ := client.UserCheck(inst.Nc, cr[0], cr[1]); len(nodes) > 0 {
 					return keep(&mc.Outcome{Violation: fmt.Sprintf("login with e-mail %q and password %q (the user has %q / %q) returned nodes in state %s", cr[0], cr[1], u.Email, u.Pass, key()), Key: "login-near-miss-credentials"})
 				}
